@@ -26,8 +26,8 @@ func init() {
 			"(b) the retryable HTTP client over an in-bubble RoundTripper serving scripted responses (status x Retry-After seconds/date/garbage, transport errors), request instants on the fake clock; " +
 			"(c) complement, plain input sampling of a pure function: the wait policies' Apply() with attempt numbers up to 2^31 and Retry-After values up to 2^63; " +
 			"non-trivial = at least two attempts were made or a context ended mid-way (a, b), boundary arguments (c); distinct = distinct (policy, script, observed instants) digest",
-		Real: []string{"utils/retry retry.go (RetryIf, RetryOnError)", "utils/http retry_policy.go (constant / linear / exponential wait policies, Retry-After parsing), retryable_client.go", "avast/retry-go", "hashicorp/go-retryablehttp (request loop, timers)"},
-		Stub: []string{"operation outcomes: script", "network: in-bubble http.RoundTripper (no sockets)", "time: testing/synctest fake clock (waits of hours cost nothing; Retry-After dates are evaluated against it)"},
+		Real:        []string{"utils/retry retry.go (RetryIf, RetryOnError)", "utils/http retry_policy.go (constant / linear / exponential wait policies, Retry-After parsing), retryable_client.go", "avast/retry-go", "hashicorp/go-retryablehttp (request loop, timers)"},
+		Stub:        []string{"operation outcomes: script", "network: in-bubble http.RoundTripper (no sockets)", "time: testing/synctest fake clock (waits of hours cost nothing; Retry-After dates are evaluated against it)"},
 		Assumptions: []string{"built with go1.26.8 (testing/synctest)", "part (c) is input sampling of a pure function and is reported as such; it complements the simulated runs for argument ranges no client run can reach"},
 	})
 }
